@@ -161,6 +161,10 @@ for Atomic<'a, ItemType, BUFFER_SIZE, MAX_STREAMS> {
             self.channel.publish_leaked_internal(slot_id);
             if len_before < MAX_STREAMS as u32 {
                 self.streams_manager.wake_stream(len_before);
+            } else if MAX_STREAMS > 0 {
+                // `len_before` was sampled when the slot was reserved, before the (arbitrarily long) suspension of the setter:
+                // the streams that were awake back then may have drained the channel and parked meanwhile, so a stream is woken anyway
+                self.streams_manager.wake_stream(MAX_STREAMS as u32 - 1);
             }
             keen_retry::RetryResult::Ok { reported_input: (), output: () }
         } else {
